@@ -41,7 +41,7 @@ Inductive node :=
 | NOp3 (f : nat) (dirty : bool) (cache : Z) (a b c : node).
 
 Inductive subscriber :=
-| SObs (label : nat)                       (* a user observer *)
+| SObs (label : nat) (act : option nat)    (* a user observer; act = Some q: it also calls q.set(first payload value) *)
 | SNode (b : nat) (leaf : nat).            (* the slot of PropertyNode `leaf` of binding b; the table's kind tells which of its three slots *)
 
 Record table := {
@@ -77,7 +77,8 @@ Inductive wpath := WSet | WAssign | WStream.      (* set(), operator=, operator>
 Inductive op :=
 | PNew (p : nat) (v : Z) | PDel (p : nat)
 | PSet (p : nat) (v : Z) (path : wpath) | PGet (p : nat) | PHasBinding (p : nat)
-| PObserve (p : nat) (k : sigkind) (label : nat) (h : nat) | PUnobserve (h : nat)
+| PObserve (p : nat) (k : sigkind) (label : nat) (h : nat) (act : option nat) | PUnobserve (h : nat)
+| PAssignFrom (p q : nat)                        (* p = q.get(): operator= with a reference into q *)
 | PBind (p : nat) (e : expr) (m : mode)          (* p = makeBinding(...): creates p (makeBoundProperty) if it does not exist *)
 | PReset (p : nat)
 | PMoveCtor (src dst : nat) | PMoveAssign (dst src : nat)
@@ -453,7 +454,18 @@ Section Exec.
     (* one subscriber of signal k of property p is called *)
     Definition deliver (w : world) (p : nat) (k : sigkind) (payload : list Z) (s : subscriber) : res :=
       match s with
-      | SObs label => ok (log (EvNotify label k payload (values w p)) w)
+      | SObs label act =>
+          let w1 := log (EvNotify label k payload (values w p)) w in
+          match act, payload with
+          | Some q, v :: _ =>
+              match lookup (w_props w1) q with
+              | None => ok w1                                   (* the harness skips the write if q is gone *)
+              | Some pr => match pr_updater pr with
+                           | Some _ => throw w1 PxReadOnly
+                           | None => rec_set w1 q v end
+              end
+          | _, _ => ok w1
+          end
       | SNode b leaf =>
           match get_bind w b with
           | None => throw w PxBad
@@ -672,8 +684,15 @@ Section Exec.
     | PHasBinding p => match lookup (w_props w) p with
                        | None => throw w PxBad
                        | Some pr => ok (log (EvVal (Some (match pr_updater pr with Some _ => 1%Z | None => 0%Z end))) w) end
-    | PObserve p k label h =>
-        match subscribe w p k (SObs label) with
+    | PAssignFrom p q =>
+        match lookup (w_props w) p, lookup (w_props w) q with
+        | Some pr, Some qr => match pr_updater pr with
+                              | Some _ => throw w PxReadOnly
+                              | None => set_helper fuel w p (pr_value qr) end
+        | _, _ => throw w PxBad
+        end
+    | PObserve p k label h act =>
+        match subscribe w p k (SObs label act) with
         | None => throw w PxBad
         | Some (w1, hd) => ok (set_obs w1 (bind_key (w_obs w1) h hd))
         end
